@@ -1052,6 +1052,11 @@ func genCase(r *h.Rng, big bool) []string {
 		// reload
 		if r.Chance(14) {
 			genReload(r, g, groups, engine, wantConc, &ops)
+			// several reloads within one interval: state owed from an earlier reload (staleSeries,
+			// seriesInPreviousEval) must survive the later ones
+			for k := 0; k < 2 && r.Chance(35); k++ {
+				genReload(r, g, groups, engine, wantConc, &ops)
+			}
 		}
 		if r.Chance(4) {
 			i := r.Intn(len(groups))
